@@ -12,7 +12,8 @@ CHECKS = {
          'Counter.tla is model-checked exhaustively (all modulo values of the property, InRange, ReturnIsOutput, '
          'PutMissingHarmless); every transition of that state graph and seeded random long sequences are executed '
          'on the real Counter and each recorded step must be the corresponding spec action (TLC trace validation). '
-         'Counter is state-determined, so transition coverage covers all sequences over the model constants.',
+         'Counter is state-determined, so transition coverage covers all sequences over the model constants. '
+         'Beyond the constants: Apalache proves InRange / ReturnIsOutput inductive over all integers (APA_Counter.tla).',
          'integers / halves with |x|<2^30; TLC, the JSON reader and the harness projection are trusted', '6 C20'),
 }
 TRUSTED = 'TLC, the JSON reader, the virtual-time loop and the harness projection (Python value -> integer code) are trusted; nothing is claimed about executions that were not generated'
